@@ -762,7 +762,8 @@ func compScenarios(a map[string]string) *compScenario {
 				}
 			},
 			build: func(wf *sp.Workflow) {
-				g := components.NewFileGlobber(wf, "glob", pat)
+				// several patterns are given as "p1;p2;p3": the matches of each, in the order of the patterns
+				g := components.NewFileGlobber(wf, "glob", strings.Split(pat, ";")...)
 				newRecorder(wf, "rec").InPort("in").From(g.Out())
 			},
 			oracle: func(o *Obs, add func(class, detail string)) {
@@ -781,10 +782,12 @@ func compScenarios(a map[string]string) *compScenario {
 					all = append(all, f)
 				}
 				sort.Strings(all)
-				for _, f := range all {
-					// independent reference: match the pattern segment by segment
-					if globMatch(pat, f) {
-						want = append(want, f)
+				for _, onePat := range strings.Split(pat, ";") {
+					for _, f := range all {
+						// independent reference: match the pattern segment by segment
+						if globMatch(onePat, f) {
+							want = append(want, f)
+						}
 					}
 				}
 				if strings.Join(rc["rec"], ",") != strings.Join(want, ",") {
